@@ -4,6 +4,7 @@ import random
 import numpy as np
 
 from .. import gen_netlist as N
+from ..simutil import KRandom
 from .. import hier as H
 
 ID = 'C14'
@@ -199,7 +200,7 @@ def check_case(ctx, rng, idx):
     lib = getattr(T, desc['lib'])
     stats = dict.fromkeys(['empty_triples', 'partial_triples', 'single_value_lists', 'edge_qualified', 'iopath_entries', 'interconnect_entries', 'split_instances',
                            'multi_toplevel_blocks', 'escaped_instances', 'timingcheck_blocks'], 0)
-    case = {'verilog': vtext, 'lib': desc['lib'], 'branchforks': bf}
+    case = {'verilog': vtext, 'lib': desc['lib'], 'branchforks': bf, 'rngkey': getattr(rng, 'key', None)}
     with ctx.guard('sdf-raises', case):
         c = verilog.parse(vtext, tlib=lib, branchforks=bf)
         stext, exp_io, exp_ic = gen_sdf(rng, desc, c, lib, bf, stats)
@@ -260,13 +261,11 @@ def run(spec, ctx):
     if spec['shard'] == 0:
         corpus(ctx)
     for i in range(spec['n']):
-        check_case(ctx, random.Random(f'C14/{spec["seed"]}/{spec["shard"]}/{i}'), i)
+        check_case(ctx, KRandom(f'C14/{spec["seed"]}/{spec["shard"]}/{i}'), i)
 
 
 def replay(case, ctx):
     if case.get('corpus'):
         corpus(ctx)
         return
-    from kyupy import verilog, sdf
-    for i in range(300):
-        check_case(ctx, random.Random(f'C14replay/{i}'), 9)
+    check_case(ctx, KRandom(case['rngkey']), 9)
